@@ -55,7 +55,48 @@ func cutPoints(total int, bounds ...int) []int {
 //verif:witness failed
 //verif:fanout 400
 func H_C20_FailedParse() {
-	switch nd.IntRange(0, 6) {
+	switch nd.IntRange(0, 8) {
+	case 7:
+		// keys-and-cert readers (generic and key-type-specific) on encodings cut inside the certificate
+		kinds := [][2]int{{7, 0}, {7, 4}}
+		kd := kinds[nd.IntRange(0, 1)]
+		in := nd.Bytes(391)
+		pinDest(in, 0, kd[0], kd[1], 0)
+		k := nd.IntRange(383, 390)
+		var v *keys_and_cert.KeysAndCert
+		var err error
+		switch nd.IntRange(0, 2) {
+		case 0:
+			v, _, err = keys_and_cert.ReadKeysAndCert(in[:k])
+		case 1:
+			v, _, err = keys_and_cert.ReadKeysAndCertElgAndEd25519(in[:k])
+		case 2:
+			v, _, err = keys_and_cert.ReadKeysAndCertX25519AndEd25519(in[:k])
+		}
+		if err == nil || v == nil {
+			return
+		}
+		nd.Cover("failed")
+		sweep_keys_and_cert_KeysAndCert(v, nd.IntRange(0, n_sweep_keys_and_cert_KeysAndCert-1))
+	case 8:
+		in := nd.Bytes(391)
+		pinDest(in, 0, 7, 4, 0)
+		k := nd.IntRange(383, 390)
+		if nd.Bool() {
+			d, _, err := destination.ReadDestination(in[:k])
+			if err == nil {
+				return
+			}
+			nd.Cover("failed")
+			sweep_destination_Destination(&d, nd.IntRange(0, n_sweep_destination_Destination-1))
+		} else {
+			r, _, err := router_identity.ReadRouterIdentity(in[:k])
+			if err == nil || r == nil {
+				return
+			}
+			nd.Cover("failed")
+			sweep_router_identity_RouterIdentity(r, nd.IntRange(0, n_sweep_router_identity_RouterIdentity-1))
+		}
 	case 0:
 		s := ls2Shapes()[nd.IntRange(0, 1)]
 		in, total := s.build()
